@@ -113,6 +113,7 @@ ssize_t simk_read(int fd, void *buf, size_t n) {
       uint8_t *d = (uint8_t *) buf;
       for (size_t i = 0; i < m; i++) d[i] = pp->pop();
       pp->total_r += m;
+      if (t) t->op_read_bytes += m;
       k->logrec(K_read, fd, (int64_t) n, pp->id, (int64_t) m, 0, (parked ? RF_PARKED : 0) | (f ? RF_INJECTED : 0));
       return (ssize_t) m;
     }
